@@ -23,8 +23,11 @@ def run(ctx):
     try:
         mc, sanity, sims = F.plan(ctx, "C03")
         # splits interleaved arbitrarily inside one session
-        sims = [(n, dict(c, MaxWrites=4), num, depth, tg, eps) for n, c, num, depth, tg, eps in sims]
-        F.run_family(ctx, mc=mc[:1] + mc[1:2], sanity=[], sims=sims, preds={"C03", "R03"}, problem_kinds=set())
+        sims = [(n, dict(c, MaxWrites=4) if n.startswith("sim_tree") else c, num, depth, tg, eps)
+                for n, c, num, depth, tg, eps in sims]
+        # (the first two tree models, and the one-session model with shard-level metadata changes)
+        F.run_family(ctx, mc=mc[:2] + [m for m in mc[2:] if m[0].startswith("shard_1session")], sanity=[], sims=sims,
+                     preds={"C03", "R03"}, problem_kinds=set())
     finally:
         H.shutdown_pool()
     # ---- BatchMap: every completion order
@@ -41,7 +44,14 @@ def run(ctx):
         paths = tlc.edge_cover_paths(g)
         if len(paths) > (12 if ctx.quick else 150):
             paths = rng.sample(paths, 12 if ctx.quick else 150)
-        outs = pipes.replay_batchmap([(p, g.nodes, R._init_of(g, p)) for p in paths], lens=lens, P=P)
+        try:
+            outs = pipes.replay_batchmap([(p, g.nodes, R._init_of(g, p)) for p in paths], lens=lens, P=P)
+        except pipes.LayoutError as exc:
+            # (the stage builds short shards through metadata changes; a library whose roll-over rule differs cannot
+            # be driven along these behaviours - weaker evidence, recorded as drift, never an alarm and never a reason
+            # to lose what the other stages found)
+            ctx.add_drift(f"BatchMap lens={lens} P={P}: stage skipped, {exc}")
+            continue
         for o in outs:
             n_imposed += 1
             if o["mismatch"]:
